@@ -25,6 +25,7 @@ func init() {
 			"R4": "bet/raise amount clamp shape and positivity of the random draw; pay amounts",
 			"R5": "own id: Actions → adapter → engine forwarding, same name, arguments in order; the adapter is the actor's current one, looked up for every move",
 			"R6": "silence guards before the move request; a view with the same time stamp counts as stale; the time of every non-stale view is remembered before acting",
+			"R9": "the actor hands every view to its runner with its own mutex held exclusively: the runner's freshness test and update (check-then-set, no lock of its own) are atomic only because of that — without it one request is answered twice / two timers are armed",
 			"R8": "receiver discipline: no method of these types assigns to a field of a value receiver (the assignment would be lost) or copies a sync.* field through its receiver (bot runner, actor, actions, engine adapter: the remembered view time, the attached actor and adapter, the setters)",
 			"R7": "timer discipline: the runner's time bank is created once, by the constructor; a view discarded by the staleness filter performs no time-bank operation (the pending move survives a re-published, unchanged hand state)",
 		},
@@ -37,6 +38,7 @@ func init() {
 func checkC18(c *Ctx) {
 	p := c.P
 	checkReceiverDiscipline(c, "R8", p.implementersIn("/actor", "Runner", "Actor", "Actions", "Adapter"), 30)
+	checkActorSerialisesRunner(c, "R9")
 	checkTableLookups(c, "R6", "GamePlayerIndex")
 	checkNoKnownNilErrorReturn(c, "R3", func(f *ssa.Function) bool { return inPkg(p, f, "/actor") }, 5)
 	ri := p.Iface("/actor", "Runner")
@@ -332,6 +334,12 @@ func checkC18(c *Ctx) {
 				}
 			}
 			c.Check(stale, "R6", "silence:staleness-filter", where, "stale views filtered", "the bot does not filter stale table views before acting")
+			// … for EVERY view that carries a hand state: no way from "there is a hand state" to the move request goes
+			// round the filter. A filter applied only to views of the hand already known lets a late view of an
+			// earlier hand through as "a new hand" — the bot answers a request of a hand that is over
+			if stale {
+				checkFilterOnEveryView(c, "R6", entry, ci, canonTypeName(bot.Obj()))
+			}
 			// … and the time of the view acted on is remembered before acting
 			var rem []ssa.Instruction
 			for _, ss := range p.Stores([]*ssa.Function{entry}) {
@@ -352,6 +360,14 @@ func checkC18(c *Ctx) {
 				gds := p.Guards(r)
 				onlyHasState := nilGuard(gds, false, func(x *Sym) bool { return x.Kind == "field" && x.Name == "GameState" })
 				for _, g := range gds {
+					// the filter's own "fresh" edge is exactly "every non-stale view"
+					if cm := g.AsCmp(); cm != nil {
+						l, r := cm.L.Strip(), cm.R.Strip()
+						tn := canonTypeName(bot.Obj())
+						if isViewTimeCell(l, entry, tn) && r.Kind == "field" && r.Name == "UpdatedAt" || isViewTimeCell(r, entry, tn) && l.Kind == "field" && l.Name == "UpdatedAt" {
+							continue
+						}
+					}
 					if g.Cond.Contains(func(x *Sym) bool {
 						return x.Kind == "field" && (x.Name == "UpdatedAt" || x.Name == "GameID" || x.Name == "curGameID" || x.Name == "lastGameStateTime")
 					}) {
@@ -641,4 +657,65 @@ func blockReaches(from, to *ssa.BasicBlock) bool {
 		st = append(st, x.Succs...)
 	}
 	return false
+}
+
+// checkFilterOnEveryView: every path of the view handler from the edge "the view has a hand state" to the move request
+// passes a block that compares the remembered view time with the view's UpdatedAt.
+func checkFilterOnEveryView(c *Ctx, rule string, entry *ssa.Function, ci ssa.CallInstruction, typeName string) {
+	p := c.P
+	filter := map[*ssa.BasicBlock]bool{}
+	for _, b := range entry.Blocks {
+		iff, ok := b.Instrs[len(b.Instrs)-1].(*ssa.If)
+		if !ok {
+			continue
+		}
+		s := p.Sym(iff.Cond).Strip()
+		if s.Kind != "binop" {
+			continue
+		}
+		l, r := s.Args[0].Strip(), s.Args[1].Strip()
+		if isViewTimeCell(r, entry, typeName) && l.Kind == "field" && l.Name == "UpdatedAt" {
+			l, r = r, l
+		}
+		if isViewTimeCell(l, entry, typeName) && r.Kind == "field" && r.Name == "UpdatedAt" {
+			filter[b] = true
+		}
+	}
+	seen := map[*ssa.BasicBlock]bool{}
+	var walk func(b *ssa.BasicBlock) bool
+	walk = func(b *ssa.BasicBlock) bool {
+		if seen[b] || filter[b] {
+			return false
+		}
+		seen[b] = true
+		if b == ci.Block() {
+			return true
+		}
+		for k, sc := range b.Succs {
+			if iff, isIf := b.Instrs[len(b.Instrs)-1].(*ssa.If); isIf && len(b.Succs) == 2 {
+				noState := false
+				for _, g := range p.unfold(iff.Cond, k == 0, iff, 0) {
+					if cm := g.AsCmp(); cm != nil && cm.Op == token.EQL && (cm.R.IsNil() || cm.L.IsNil()) {
+						x := cm.L.Strip()
+						if cm.L.IsNil() {
+							x = cm.R.Strip()
+						}
+						if x.Kind == "field" && x.Name == "GameState" {
+							noState = true
+						}
+					}
+				}
+				if noState {
+					continue
+				}
+			}
+			if walk(sc) {
+				return true
+			}
+		}
+		return false
+	}
+	bypass := walk(entry.Blocks[0])
+	c.Check(!bypass, rule, "silence:staleness-filter-on-every-view", p.InstrPos(ci), "every view with a hand state passes the freshness comparison before a move is requested",
+		"a view that carries a hand state can reach the move request without its time being compared with the last view acted on (e.g. whenever its hand id differs from the remembered one): a late view of an earlier hand is answered")
 }
